@@ -30,10 +30,10 @@ CODEBASE = 1000000000
 TIERS = {
     "quick": dict(MaxGenTables=2, MaxGenRows=3, MaxTheta=2, OmegaKinds='"d2", "b2", "b2d1"', SigmaKinds='"d1", "b2"',
                   FixPats='"none", "th1", "om", "omblk1", "sg"', MaxSteps=2,
-                  RowSets='"full", "nocov", "abort", "nm72", "covabort"', IterSets='"0-5-10", "0"', AllPhi="FALSE"),
+                  RowSets='"full", "nocov", "abort", "nm72", "covabort"', IterSets='"0-5-10", "0"', AllPhi="FALSE", AllIters="FALSE"),
     "thorough": dict(MaxGenTables=3, MaxGenRows=3, MaxTheta=4, OmegaKinds='"d1", "d2", "b2", "b2d1", "d1b2"', SigmaKinds='"d1", "d2", "b2"',
                      FixPats='"none", "th1", "thlast", "om", "omblk1", "sg"', MaxSteps=2,
-                     RowSets='"full", "nocov", "abort", "nm72", "covabort"', IterSets='"0-5-10", "0"', AllPhi="FALSE"),
+                     RowSets='"full", "nocov", "abort", "nm72", "covabort"', IterSets='"0-5-10", "0"', AllPhi="FALSE", AllIters="TRUE"),
 }
 
 
@@ -157,11 +157,13 @@ def model_code(run):
     sg = {(p["i"], p["j"]): p for p in run["fileorder"] if p["kind"] == "SIGMA"}
     neta = max(i for i, _ in om)
     neps = max(i for i, _ in sg)
-    y = " + ".join([f"THETA({p['i']})" for p in th] + [f"ETA({i})" for i in range(1, neta + 1)] + [f"EPS({i})" for i in range(1, neps + 1)])
-    code = ["$PROBLEM synthetic run", "$INPUT ID TIME DV", "$DATA data.csv IGNORE=@", "$PRED", f"Y = {y}"]
+    mu = run["phikind"] == "PHI"  # EM run: mu-referenced model, PHI(1) = MU_1 + ETA(1)
+    y = " + ".join([("MU_1" if mu and p["i"] == 1 else f"THETA({p['i']})") for p in th] + [f"ETA({i})" for i in range(1, neta + 1)] + [f"EPS({i})" for i in range(1, neps + 1)])
+    code = ["$PROBLEM synthetic run", "$INPUT ID TIME DV", "$DATA data.csv IGNORE=@", "$PRED"] + (["MU_1 = THETA(1)"] if mu else []) + [f"Y = {y}"]
     for p in th:
         name = {1: " ; TVCL"}.get(p["i"], "")
-        code.append(f"$THETA {'1.5 FIX' if p['fix'] else '(-100,1.5,100)'}{name}")
+        # a fixed theta has the value the .ext file shows for it (50 + position in the file)
+        code.append(f"$THETA {str(50 + p['i']) + ' FIX' if p['fix'] else '(-100,1.5,100)'}{name}")
 
     def matrix(rec, pars, n, com):
         blocks, cur = [], [1]
@@ -367,7 +369,7 @@ def check_phi_tables(run, path):
         want(list(etcs.index) == ids, "phi_etc_ids", f"etc ids {list(etcs.index)}")
         for q, e in enumerate(exp):
             for i in range(n):
-                want(close(etas.iloc[q, i], e["eta"][i]), "phi_eta", f"id {e['id']} {pre}({i + 1}) = {etas.iloc[q, i]}, written {e['eta'][i]}")
+                want(close(etas.iloc[q, i], e["raw"][i]), "phi_eta", f"id {e['id']} {pre}({i + 1}) = {etas.iloc[q, i]}, written {e['raw'][i]}")
             want(close(iofv.iloc[q], e["obj"]), "phi_iofv", f"id {e['id']} OBJ {iofv.iloc[q]} != {e['obj']}")
             m = etcs.iloc[q]
             want(list(m.index) == [f"ETA({i})" for i in range(1, n + 1)], "phi_etc_labels", f"etc labels {list(m.index)}")
@@ -464,7 +466,10 @@ def check_results(run, d, with_cor, nothing_checked):
     want(list(iec.index) == ids and list(iofv.index) == ids, "individual_ids", "ids of iec / iofv")
     for q, e in enumerate(phi):
         for i in range(len(etan)):
-            want(close(ie.iloc[q, i], e["eta"][i]), "individual_estimates", f"id {e['id']} {etan[i]} = {ie.iloc[q, i]}, written {e['eta'][i]}")
+            if aborted and run["phikind"] == "PHI":
+                continue  # MU_1 at NaN estimates: unspecified
+            want(close(ie.iloc[q, i], e["eta"][i]), "individual_estimates",
+                 f"id {e['id']} {etan[i]} = {ie.iloc[q, i]}, expected {e['eta'][i]} (= {run['phikind']}({i + 1}) {e['raw'][i]} - MU_{i + 1} at the final estimates)")
             for j in range(len(etan)):
                 want(close(iec.iloc[q].iloc[i, j], e["etc"][i][j]), "individual_estimates_covariance", f"id {e['id']} ETC({i + 1},{j + 1}) = {iec.iloc[q].iloc[i, j]}")
         want(list(iec.iloc[q].index) == etan, "iec_labels", f"iec labels {list(iec.iloc[q].index)}")
@@ -514,6 +519,28 @@ def json_precision_case(case):
     want(close(got, x, 1e-12), "json_series_precision", f"a Series value {x!r} became {got!r} after to_json/read_results (15 decimal places are kept, not 15 significant digits)")
 
 
+def apply_scale(case, s):
+    """The covariance step of the abstract run in smaller units: standard errors x 10^-s, covariances x 10^-2s
+    (the writer's choice of unit; the correlation matrix D^-1 cov D^-1 does not depend on it)."""
+    import copy
+
+    c = copy.deepcopy(case)
+    f1, f2 = 10.0 ** (-s), 10.0 ** (-2 * s)
+
+    def sc(v):
+        return v if v == BIGTOKEN else v * f1
+
+    for tab in c["ext"]:
+        for row in tab["rows"]:
+            if row["special"] and row["n"] == 1:
+                row["vals"] = [sc(v) for v in row["vals"]]
+        if tab["se"]["err"] == "":
+            tab["se"]["vals"] = [sc(v) for v in tab["se"]["vals"]]
+    c["covfile"] = [[v * f2 for v in row] for row in c["covfile"]]
+    c["cov"] = [[v * f2 for v in row] for row in c["cov"]]
+    return c
+
+
 def run_case(arg):
     kind, case, seed = arg
     rng = random.Random(seed)
@@ -544,9 +571,14 @@ def run_case(arg):
             if 1 in last["codes"]:
                 import numpy as np
 
-                write_cov(d / "run1.cov", case, case["covfile"])
-                with_cor = rng.random() < 0.2
+                with_cor = rng.random() < 0.5
                 record["with_cor"] = with_cor
+                if not with_cor and rng.random() < 0.6:
+                    record["scale"] = 5
+                    case = apply_scale(case, 5)
+                    last = case["ext"][-1]
+                    write_ext(d / "run1.ext", case)
+                write_cov(d / "run1.cov", case, case["covfile"])
                 if with_cor:  # NONMEM also writes .cor (sd on the diagonal) and .coi; zero rows for fixed parameters
                     F = np.array(case["covfile"], dtype=float)
                     nz = [k for k in range(len(F)) if F[k].any()]
@@ -617,6 +649,21 @@ def main(tier: str, seed: int) -> int:
     import pharmpy.tools  # noqa: F401
 
     rng = random.Random(seed)
+    n_emitted = len(runs)
+    if tier == "quick":
+        # every class (parameter configuration x special rows of the last step) once, the member
+        # chosen by VERIF_SEED, plus every (phi variant x iterations x first-step rows) combination and a random rest
+        rng.shuffle(runs)
+        picked, seen = [], set()
+        for r in runs:
+            keys = [("cfg", json.dumps(r["cfg"], sort_keys=True), r["ext"][-1]["rowset"]),
+                    ("phi", r["phikind"], r["zero"], r["ext"][-1]["rowset"], r["cfg"]["om"]),
+                    ("steps", tuple(t["rowset"] for t in r["ext"]), tuple(r["ext"][0]["iters"]))]
+            if any(k not in seen for k in keys):
+                seen.update(keys)
+                picked.append(r)
+        rest = [r for r in runs if not any(r is p for p in picked)]
+        runs = picked + rest[:60]
     singles = [g["tabs"][0] for g in gens if len(g["tabs"]) == 1]
     for r in runs:  # the $TABLE file of the run directory is one of TLC's single-table files
         r["sdtab"] = rng.choice(singles)
@@ -635,15 +682,18 @@ def main(tier: str, seed: int) -> int:
     v.add_coverage(
         table_files=len(gens),
         run_directories=len(runs),
+        run_directories_enumerated_by_tlc=n_emitted,
         distinct_control_streams=len(_MODELS),
         evaluations=len(work),
         distinct_nontrivial=len(runs),
         traces_validated_against_impl=len(work),
         aux_numeric_checked=aux,
         tlc_constants=TIERS[tier],
-        rule="a case = one abstract file (or run directory) enumerated by TLC within the constants; non-trivial = a run directory (.ext + .phi + .cov + .lst + model); all are rendered and read back",
+        rule="a case = one abstract file (or run directory) enumerated by TLC within the constants; non-trivial = a run directory (.ext + .phi + .cov + .lst + model); "
+        "thorough: all are rendered and read back; quick: all table files, and of the run directories one member (chosen by VERIF_SEED) of every class "
+        "parameter configuration x special rows of the last step, of every phi variant x omega kind x last rows, of every row-set sequence x iteration set, plus 60 random ones",
         samples=[{"cfg": r["cfg"], "rowsets": [t["rowset"] for t in r["ext"]], "final_last": r["ext"][-1]["final"]["vals"]} for r in runs[:2]] + [gens[len(gens) // 2]],
-        exhaustive=True,
+        exhaustive=len(runs) == n_emitted,
     )
     return v.finish(min_traces=200)
 
